@@ -63,9 +63,49 @@ def build(env, prog, trace):
         env.process(proc(pid, ops))
 
 
+# ------------------------------------------------------------------------------------------------
+# second tie (DESIGN 2.6): RealtimeEnvironment.step / sync translated from the tree under test on every run
+# (vlib/translate.py, fail closed) into coq/Gen/Extracted_rt.v; bridged to rt_step / rt_sync of Rt/Realtime.v by
+# coq/Rt/RtBridge.v; obligations in Props/C20_Bridge.v.  The sleep loop is ONE whitelisted statement (FxSleepLoop, meaning
+# = the model's sleep_loop); each monotonic() call is a draw (FxMonotonic) whose value is a parameter.
+
+RT_CONS = [("FxRaiseEmptySchedule", ""),             # raise EmptySchedule()
+           ("FxMonotonic", ""),                      # monotonic()   (the reading is the next parameter r1, r2)
+           ("FxRaiseTooSlow", "(delta : Q)"),        # raise RuntimeError(f'Simulation too slow for real time ({delta:.3f}s).')
+           ("FxSleepLoop", "(real_time : Q)"),       # while True: delta = real_time - monotonic(); if delta <= 0: break; sleep(delta)
+           ("FxKernelStep", ""),                     # Environment.step(self)
+           ("FxSetRealStart", "(t : Q)")]            # self.real_start = t
+RT_SLEEP = """while True:
+    delta = _1 - monotonic()
+    if delta <= 0:
+        break
+    sleep(delta)"""
+RT_FX = [("raise EmptySchedule()", "FxRaiseEmptySchedule", []),
+         ("raise RuntimeError(f'Simulation too slow for real time ({_1:.3f}s).')", "FxRaiseTooSlow", ["Q"]),
+         (RT_SLEEP, "FxSleepLoop", ["Q"]),
+         ("Environment.step(self)", "FxKernelStep", []),
+         ("self.real_start = _1", "FxSetRealStart", ["Q"])]
+RT_READS = [("evt_time is Infinity", "empty", "bool", "needs:evt_time"),      # peek() returned Infinity
+            ("evt_time", "evt_time", "Q", "needs:evt_time"),                  # ... or the time of the next event
+            ("self.real_start", "real_start", "Q"), ("self.env_start", "env_start", "Q"),
+            ("self.factor", "factor", "Q"), ("self.strict", "strict", "bool")]
+RT_ALIASES = [("evt_time = self.peek()", "evt_time")]
+RT_DRAWS = [("monotonic()", ["r1", "r2"], "Q", "FxMonotonic")]
+
+
+def extracted_rt(repo):
+    import os
+    from vlib import translate as tr
+    path = os.path.join(repo, "onl", "sim", "rt.py")
+    specs = [tr.FnSpec(path, "RealtimeEnvironment", "step", "gen_Rt_step", reads=RT_READS, effects=RT_FX, aliases=RT_ALIASES,
+                       draws=RT_DRAWS),
+             tr.FnSpec(path, "RealtimeEnvironment", "sync", "gen_Rt_sync", effects=RT_FX, draws=RT_DRAWS)]
+    return tr.gen_module("onl/sim/rt.py: RealtimeEnvironment.step, sync", None, "", [], "rt_fx", RT_CONS, specs)
+
+
 class C20(Prop):
     id = "C20"
-    props_file = "Props/C20.v"
+    props_file = ["Props/C20.v", "Props/C20_Bridge.v"]
     coq_imports = ["From ONL Require Import Rt.Realtime."]
     n_quick = 400
     n_thorough = 10000
@@ -75,9 +115,19 @@ class C20(Prop):
                        "below/at/above factor; non-trivial = at least 4 steps of which at least one needed a sleep and, in strict "
                        "mode, the lag came within one lattice step of `factor` or exceeded it; distinct by case hash")
     trusted_base = ["time.monotonic/time.sleep are replaced by a scripted virtual clock (real sleeping is not exercised and not claimed)",
+                    "vlib/translate.py (Python ast, fail closed; tables above the plugin class in props/c20.py) regenerates "
+                    "coq/Gen/Extracted_rt.v from RealtimeEnvironment.step / sync of the tree under test before every build; the C20_gen_* "
+                    "theorems (Props/C20_Bridge.v) bridge them to rt_step / rt_sync; the sleep loop is one whitelisted statement",
                     "the kernel is abstract in the Coq model (any state, any step function): 'same events' is proved for every kernel "
                     "and checked on the real one by running the same program on Environment and RealtimeEnvironment"]
     assumptions = ["the clock oracle is an arbitrary list of readings; monotonic()'s non-decreasing behaviour is not needed by any theorem"]
+
+    # ---- second tie: regenerate the translated bodies before the Coq build (fail closed) ----------------
+    def pre_build(self):
+        import os
+        from vlib import framework as fw
+        from vlib import translate as tr
+        tr.write_if_changed(os.path.join(fw.COQ, "Gen", "Extracted_rt.v"), extracted_rt(fw.REPO))
 
     def gen_case(self, rng, tier):
         if rng.random() < 0.3:
